@@ -363,6 +363,9 @@ def check(ctx):
     # after the end a reversing timeline rests at 0, any other at 1 (C02/R3)
     from rules import c02
     c02.rule_ended(ctx, tab, "R6")
+    # "0% while time < delay", as the evaluation sees it: prepare_frame maps NotStarted to position 0.0 (C10/R1)
+    from rules import c10
+    c10.rules_prepare_frame(ctx, "R7")
     ctx.notes.append("not decided: linear rise and exact periodicity as numeric relations over all f32 times")
     ctx.assumptions += ["cycle duration D finite and > 0, time finite (valid configuration)",
                         "f32 division, remainder, subtraction are correctly rounded and monotone"]
